@@ -89,6 +89,12 @@ def run(cmd, timeout, mem_gb, cwd, env=None):
         import resource
         lim = int(mem_gb * 1024 ** 3)
         resource.setrlimit(resource.RLIMIT_AS, (lim, lim))
+        # CBMC recurses deeply over large objects (a 16 MB malloc made it die with SIGSEGV under the default 8 MB stack)
+        try:
+            soft, hard = resource.getrlimit(resource.RLIMIT_STACK)
+            resource.setrlimit(resource.RLIMIT_STACK, (hard, hard))
+        except (ValueError, OSError):
+            pass
     try:
         p = subprocess.Popen(cmd, cwd=cwd, stdout=subprocess.PIPE, stderr=subprocess.STDOUT,
                              preexec_fn=pre, env=env, text=True, errors="replace")
